@@ -7,6 +7,7 @@ import (
 	"go/ast"
 	"go/token"
 	"go/types"
+	"regexp"
 	"sort"
 	"strings"
 
@@ -341,6 +342,8 @@ func runC07(c *Ctx) {
 	c.Ob("TERMINAL-COMMENTS", "leaf-writers", token.NoPos, len(leaf) >= 5, true, "%d leaf writers of terminal nodes identified from writeNode's cases: %s", len(leaf), strings.Join(sortedBoolKeys(leaf), ","))
 
 	c07OverrideKeys(c, pk, pa, nodeIface, termIface)
+	c07WriterCoverage(c, pk, nodeIface)
+	c07Comparators(c, pk)
 
 	// ---- (5) STABLE-SORT
 	for _, fr := range p.FuncsOf(pk) {
@@ -615,8 +618,26 @@ func nodeChildFields(st *types.Struct, nodeIface *types.Interface, prefix string
 // c07FieldUses classifies every selection of a child field of a protocompile/ast node type inside bufformat:
 // written = the selected value (or an element of it, or a variable bound to it) is an argument of a call to a
 // function of the package; tested = any other use.
+// c07PerFn: "func/param" -> child fields of the parameter's node that the function hands to writers itself.
+var c07PerFn map[string]map[string]bool
+
+func isParamOf(info *types.Info, fd *ast.FuncDecl, v *types.Var) bool {
+	if fd.Type.Params == nil {
+		return false
+	}
+	for _, fl := range fd.Type.Params.List {
+		for _, nm := range fl.Names {
+			if info.Defs[nm] == types.Object(v) {
+				return true
+			}
+		}
+	}
+	return false
+}
+
 func c07FieldUses(p *Prog, pk *packages.Package, pa *packages.Package) (written, tested map[string]int) {
 	written, tested = map[string]int{}, map[string]int{}
+	c07PerFn = map[string]map[string]bool{}
 	info := pk.TypesInfo
 	ownerOf := func(sel *ast.SelectorExpr) string {
 		s := info.Selections[sel]
@@ -654,6 +675,16 @@ func c07FieldUses(p *Prog, pk *packages.Package, pa *packages.Package) (written,
 			switch x := par.(type) {
 			case *ast.ParenExpr, *ast.IndexExpr, *ast.SliceExpr, *ast.TypeAssertExpr, *ast.StarExpr:
 				if ix, ok := x.(*ast.IndexExpr); ok && ix.X != cur {
+					return false
+				}
+				cur = par
+				continue
+			case *ast.SelectorExpr:
+				// n.F.G handed to a writer: F is written through its own child G
+				if x.X != cur {
+					return false
+				}
+				if sl := info.Selections[x]; sl == nil || sl.Kind() != types.FieldVal {
 					return false
 				}
 				cur = par
@@ -776,6 +807,15 @@ func c07FieldUses(p *Prog, pk *packages.Package, pa *packages.Package) (written,
 			// type switch guard `switch v := n.F.(type)` binds v per clause: accept when any clause passes its v
 			if exprPassed(sel, 0) || typeSwitchPasses(p, info, sel, exprPassed) {
 				written[key]++
+				if fd := p.EnclosingFuncDecl(sel); fd != nil {
+					if po, ok := identObj(info, sel.X).(*types.Var); ok && isParamOf(info, fd, po) {
+						k := fd.Name.Name + "/" + po.Name()
+						if c07PerFn[k] == nil {
+							c07PerFn[k] = map[string]bool{}
+						}
+						c07PerFn[k][sel.Sel.Name] = true
+					}
+				}
 			} else {
 				tested[key]++
 			}
@@ -1162,6 +1202,62 @@ func c07OverrideKeys(c *Ctx, pk, pa *packages.Package, nodeIface, termIface *typ
 		}
 	}
 	c.Note("OVERRIDE-KEY: %s; composite key types: %s", how, strings.Join(sortedKeys(compositeKeys), ","))
+	// key identity: the map is keyed by pointer. A key obtained from a helper that may allocate a fresh node
+	// (messageLiteralClose builds a new '}' for a '>' literal) must be the very value handed to the writer: the
+	// helper is called once per function and node, and its result reused.
+	for _, fr := range p.FuncsOf(pk) {
+		if fr.Decl.Body == nil {
+			continue
+		}
+		ast.Inspect(fr.Decl.Body, func(n ast.Node) bool {
+			call, ok := n.(*ast.CallExpr)
+			if !ok || len(call.Args) != 2 {
+				return true
+			}
+			if fn := Callee(info, call); fn == nil || fn.Name() != "setTrailingComments" || fn.Pkg() != pk.Types {
+				return true
+			}
+			c.CallSites++
+			key := ast.Unparen(call.Args[0])
+			var def *ast.CallExpr
+			if kc, ok := key.(*ast.CallExpr); ok {
+				def = kc
+			} else if ko := identObj(info, key); ko != nil {
+				ast.Inspect(fr.Decl.Body, func(m ast.Node) bool {
+					if as, ok := m.(*ast.AssignStmt); ok && len(as.Lhs) == len(as.Rhs) {
+						for i, l := range as.Lhs {
+							if identObj(info, l) == ko {
+								if dc, ok := ast.Unparen(as.Rhs[i]).(*ast.CallExpr); ok {
+									def = dc
+								}
+							}
+						}
+					}
+					return true
+				})
+			}
+			if def == nil {
+				c.Ob(rule, fr.ID()+"/key-identity "+exprString(key), call.Pos(), true, false, "key %s is a field of the node (stable identity)", exprString(key))
+				return true
+			}
+			dfn := Callee(info, def)
+			if dfn == nil || dfn.Pkg() != pk.Types {
+				return true
+			}
+			calls := 0
+			want := exprString(def)
+			ast.Inspect(fr.Decl.Body, func(m ast.Node) bool {
+				if c2, ok := m.(*ast.CallExpr); ok && exprString(c2) == want {
+					calls++
+				}
+				return true
+			})
+			_, direct := key.(*ast.CallExpr)
+			c.Ob(rule, fr.ID()+"/key-identity "+want, call.Pos(), calls == 1 && !direct, true,
+				"the override key comes from %s, which may allocate: it is evaluated %d time(s) in this function and its result is kept in a variable=%v (a second evaluation yields a different pointer, and the override is never found)", want, calls, !direct)
+			return true
+		})
+	}
 	// the map is read only by nodeInfo
 	readers := map[string]bool{}
 	for _, fr := range p.FuncsOf(pk) {
@@ -1248,4 +1344,315 @@ func c07OverrideKeys(c *Ctx, pk, pa *packages.Package, nodeIface, termIface *typ
 			"an override may be keyed by a composite ast.%s: %d of its %d writers that emit its closing token %s consult f.nodeInfo(<the node>) (not consulting: %v); "+
 				"an override on a node nobody asks about is a lost comment", name, consulting, writers, last, bad)
 	}
+}
+
+// c07WriterExempt: (entry writer, field) pairs that are deliberately not written by that writer.
+var c07WriterExempt = map[string]string{
+	"writeFieldReference:URLPrefix":    "option-name parts cannot carry an Any URL prefix; only message-literal field names can, and writeMessageFieldPrefix writes those",
+	"writeFieldReference:Slash":        "see URLPrefix",
+	"writeLastCompactOption:Semicolon": "a compact option (inside [...]) has no semicolon",
+}
+
+// c07WriterCoverage (WRITER-COVERAGE, added after seeded change C07-c): CHILD-COVERAGE asks that a field is written
+// somewhere; this asks it of every *entry writer*. A function with a parameter n of node type *T is an entry writer
+// of T when some call site hands it a node that is not the caller's own parameter (a parent's field, a type-switch
+// or range variable): it is then responsible for all of T. Its coverage is what it writes itself plus the coverage
+// of the package functions it passes n to. Helpers that only ever receive their caller's parameter write a part
+// by design and are judged through their callers.
+func c07WriterCoverage(c *Ctx, pk *packages.Package, nodeIface *types.Interface) {
+	const rule = "WRITER-COVERAGE"
+	c.Rule(rule, "every entry writer of a node type hands all of the node's child fields to writers (itself or through the helpers it passes the node to)", 30)
+	p := c.P
+	info := pk.TypesInfo
+	type fparam struct {
+		fd    *ast.FuncDecl
+		obj   *types.Var
+		named *types.Named
+		idx   int
+	}
+	params := map[string]*fparam{} // "func/param"
+	byFunc := map[*types.Func][]*fparam{}
+	for _, fr := range p.FuncsOf(pk) {
+		if fr.Decl.Body == nil || fr.Decl.Type.Params == nil {
+			continue
+		}
+		fobj, _ := info.Defs[fr.Decl.Name].(*types.Func)
+		idx := 0
+		for _, fl := range fr.Decl.Type.Params.List {
+			for _, nm := range fl.Names {
+				v, _ := info.Defs[nm].(*types.Var)
+				if v != nil {
+					if pt, ok := v.Type().(*types.Pointer); ok {
+						if n, ok := pt.Elem().(*types.Named); ok && n.Obj().Pkg() != nil && n.Obj().Pkg().Path() == pkgPCAst {
+							if _, isStruct := n.Underlying().(*types.Struct); isStruct {
+								fp := &fparam{fr.Decl, v, n, idx}
+								params[fr.Decl.Name.Name+"/"+v.Name()] = fp
+								byFunc[fobj] = append(byFunc[fobj], fp)
+							}
+						}
+					}
+				}
+				idx++
+			}
+		}
+	}
+	// delegation edges and entry detection
+	delegates := map[string][]string{} // "func/param" -> callee "func/param"
+	entry := map[string]bool{}
+	for _, fr := range p.FuncsOf(pk) {
+		if fr.Decl.Body == nil {
+			continue
+		}
+		fd := fr.Decl
+		ast.Inspect(fd.Body, func(n ast.Node) bool {
+			call, ok := n.(*ast.CallExpr)
+			if !ok {
+				return true
+			}
+			fn := Callee(info, call)
+			if fn == nil || fn.Pkg() != pk.Types {
+				return true
+			}
+			for _, fp := range byFunc[fn] {
+				if fp.idx >= len(call.Args) {
+					continue
+				}
+				arg := call.Args[fp.idx]
+				calleeKey := fp.fd.Name.Name + "/" + fp.obj.Name()
+				if v, ok := identObj(info, arg).(*types.Var); ok && isParamOf(info, fd, v) {
+					delegates[fd.Name.Name+"/"+v.Name()] = append(delegates[fd.Name.Name+"/"+v.Name()], calleeKey)
+				} else {
+					entry[calleeKey] = true
+				}
+			}
+			return true
+		})
+	}
+	var cover func(k string, seen map[string]bool) map[string]bool
+	cover = func(k string, seen map[string]bool) map[string]bool {
+		out := map[string]bool{}
+		if seen[k] {
+			return out
+		}
+		seen[k] = true
+		for f := range c07PerFn[k] {
+			out[f] = true
+		}
+		for _, d := range delegates[k] {
+			for f := range cover(d, seen) {
+				out[f] = true
+			}
+		}
+		return out
+	}
+	for _, k := range sortedKeys(entry) {
+		fp := params[k]
+		if c07Forwarders[fp.fd.Name.Name] || !strings.HasPrefix(fp.fd.Name.Name, "write") && !strings.HasPrefix(fp.fd.Name.Name, "maybeWrite") {
+			continue
+		}
+		st := fp.named.Underlying().(*types.Struct)
+		fields := nodeChildFields(st, nodeIface, "")
+		got := cover(k, map[string]bool{})
+		var missing []string
+		for _, f := range fields {
+			key := fp.named.Obj().Name() + "." + f
+			if _, ok := c07ChildNotWritten[key]; ok {
+				continue
+			}
+			if _, ok := c07WriterExempt[fp.fd.Name.Name+":"+f]; ok {
+				continue
+			}
+			if !got[f] {
+				missing = append(missing, f)
+			}
+		}
+		c.Ob(rule, k+" ("+fp.named.Obj().Name()+")", fp.fd.Pos(), len(missing) == 0, true,
+			"entry writer %s of ast.%s covers %d of its %d child fields; not handed to any writer: %v", fp.fd.Name.Name, fp.named.Obj().Name(), len(fields)-len(missing), len(fields), missing)
+	}
+}
+
+// c07Comparators (STRICT-LESS, added after seeded change C07-a): a `less` function handed to a sort must be
+// irreflexive. With j := i every pair of expressions that differ only in i/j is equal; the function is evaluated
+// under that assumption and must not definitely return true.
+func c07Comparators(c *Ctx, pk *packages.Package) {
+	const rule = "STRICT-LESS"
+	c.Rule(rule, "comparators handed to sorts are irreflexive (less(i,i) is never definitely true)", 2)
+	p := c.P
+	info := pk.TypesInfo
+	for _, fr := range p.FuncsOf(pk) {
+		if fr.Decl.Body == nil {
+			continue
+		}
+		ast.Inspect(fr.Decl.Body, func(n ast.Node) bool {
+			call, ok := n.(*ast.CallExpr)
+			if !ok || len(call.Args) != 2 {
+				return true
+			}
+			fn := Callee(info, call)
+			if fn == nil || fn.Pkg() == nil || fn.Pkg().Path() != "sort" || (fn.Name() != "Slice" && fn.Name() != "SliceStable") {
+				return true
+			}
+			lit, ok := ast.Unparen(call.Args[1]).(*ast.FuncLit)
+			if !ok || len(lit.Type.Params.List) == 0 {
+				return true
+			}
+			var names []string
+			for _, fl := range lit.Type.Params.List {
+				for _, nm := range fl.Names {
+					names = append(names, nm.Name)
+				}
+			}
+			if len(names) != 2 {
+				return true
+			}
+			c.CallSites++
+			verdict, why := lessReflexive(info, lit, names[0], names[1])
+			c.Ob(rule, fr.ID()+"/"+fn.Name()+"("+exprString(call.Args[0])+")", lit.Pos(), verdict != "true", true,
+				"less(i,i) evaluates to %s: %s (a comparator that is true on equal keys reverses equal elements under a stable sort and is undefined under an unstable one)", verdict, why)
+			return true
+		})
+	}
+}
+
+// lessReflexive evaluates the comparator body with the second index renamed to the first. Returns "true", "false"
+// or "unknown" for the first return whose path conditions are all definite.
+func lessReflexive(info *types.Info, lit *ast.FuncLit, iName, jName string) (string, string) {
+	norm := func(e ast.Expr) string {
+		s := exprString(e)
+		// rename identifier j -> i (whole words only)
+		re := regexp.MustCompile(`\b` + regexp.QuoteMeta(jName) + `\b`)
+		return re.ReplaceAllString(s, iName)
+	}
+	env := map[string]string{} // local variable -> normalised defining expression
+	var resolve func(e ast.Expr) string
+	resolve = func(e ast.Expr) string {
+		if id, ok := ast.Unparen(e).(*ast.Ident); ok {
+			if d, ok := env[id.Name]; ok {
+				return d
+			}
+		}
+		out := norm(e)
+		for name, def := range env {
+			if strings.HasPrefix(name, "bool:") {
+				continue
+			}
+			out = regexp.MustCompile(`\b`+regexp.QuoteMeta(name)+`\b`).ReplaceAllString(out, "("+strings.ReplaceAll(def, "$", "$$")+")")
+		}
+		return out
+	}
+	var eval func(e ast.Expr) string
+	eval = func(e ast.Expr) string {
+		switch x := ast.Unparen(e).(type) {
+		case *ast.Ident:
+			if x.Name == "true" || x.Name == "false" {
+				return x.Name
+			}
+			if d, ok := env["bool:"+x.Name]; ok {
+				return d
+			}
+			return "unknown"
+		case *ast.UnaryExpr:
+			if x.Op == token.NOT {
+				switch eval(x.X) {
+				case "true":
+					return "false"
+				case "false":
+					return "true"
+				}
+			}
+			return "unknown"
+		case *ast.BinaryExpr:
+			switch x.Op {
+			case token.LAND:
+				a, b := eval(x.X), eval(x.Y)
+				if a == "false" || b == "false" {
+					return "false"
+				}
+				if a == "true" && b == "true" {
+					return "true"
+				}
+				// X && !X' with X ≡ X'
+				if u, ok := ast.Unparen(x.Y).(*ast.UnaryExpr); ok && u.Op == token.NOT && resolve(u.X) == resolve(x.X) {
+					return "false"
+				}
+				if u, ok := ast.Unparen(x.X).(*ast.UnaryExpr); ok && u.Op == token.NOT && resolve(u.X) == resolve(x.Y) {
+					return "false"
+				}
+				return "unknown"
+			case token.LOR:
+				a, b := eval(x.X), eval(x.Y)
+				if a == "true" || b == "true" {
+					return "true"
+				}
+				if a == "false" && b == "false" {
+					return "false"
+				}
+				return "unknown"
+			case token.LSS, token.GTR, token.NEQ:
+				if resolve(x.X) == resolve(x.Y) {
+					return "false"
+				}
+				return "unknown"
+			case token.LEQ, token.GEQ, token.EQL:
+				if resolve(x.X) == resolve(x.Y) {
+					return "true"
+				}
+				return "unknown"
+			}
+		}
+		return "unknown"
+	}
+	var run func(stmts []ast.Stmt) (string, string, bool)
+	run = func(stmts []ast.Stmt) (string, string, bool) {
+		for _, s := range stmts {
+			switch x := s.(type) {
+			case *ast.AssignStmt:
+				if len(x.Lhs) == len(x.Rhs) {
+					for k, l := range x.Lhs {
+						if id, ok := l.(*ast.Ident); ok {
+							env[id.Name] = resolve(x.Rhs[k])
+							if t := info.TypeOf(x.Rhs[k]); t != nil {
+								if b, ok := t.Underlying().(*types.Basic); ok && b.Kind() == types.Bool {
+									env["bool:"+id.Name] = eval(x.Rhs[k])
+								}
+							}
+						}
+					}
+				}
+			case *ast.IfStmt:
+				if x.Init != nil {
+					return "unknown", "if with init statement", true
+				}
+				switch eval(x.Cond) {
+				case "true":
+					if v, w, done := run(x.Body.List); done {
+						return v, w, true
+					}
+				case "false":
+					if x.Else != nil {
+						if blk, ok := x.Else.(*ast.BlockStmt); ok {
+							if v, w, done := run(blk.List); done {
+								return v, w, true
+							}
+						} else {
+							return "unknown", "else-if chain", true
+						}
+					}
+				default:
+					return "unknown", "condition " + short(exprString(x.Cond), 60) + " is not decided by i=j", true
+				}
+			case *ast.ReturnStmt:
+				if len(x.Results) == 1 {
+					return eval(x.Results[0]), "return " + short(exprString(x.Results[0]), 60), true
+				}
+				return "unknown", "multi-value return", true
+			case *ast.ExprStmt, *ast.DeclStmt, *ast.EmptyStmt:
+			default:
+				return "unknown", "unsupported statement", true
+			}
+		}
+		return "unknown", "falls off", false
+	}
+	v, w, _ := run(lit.Body.List)
+	return v, w
 }
